@@ -256,8 +256,9 @@ pub async fn run(out: &mut Out) {
             }
         }
         {
-            let ctx = std::sync::Arc::new(SimulationContext::new(0, redis_sim::buggify::FaultConfig::disabled()));
-            let st = ShardedActorState::with_config_and_time_source(ShardConfig::with_shards(4).with_adaptive(), redis_sim::io::SimulatedTimeSource::new_default(ctx));
+            let ctx_adaptive = std::sync::Arc::new(SimulationContext::new(0, redis_sim::buggify::FaultConfig::disabled()));
+            let set_now_local = crate::c03::set_now;
+            let st = ShardedActorState::with_config_and_time_source(ShardConfig::with_shards(4).with_adaptive(), redis_sim::io::SimulatedTimeSource::new_default(ctx_adaptive.clone()));
             let mut r = Vec::new();
             for c in session(24) {
                 r.push(format!("{:?}", st.execute(&c).await));
@@ -272,6 +273,45 @@ pub async fn run(out: &mut Out) {
             cfgs.insert("with_shards(4).with_adaptive()".into(), if ok { "session equals one shard; metrics calls do not disturb it".into() } else { "DIFFERS".into() });
             if !ok {
                 out.violation("C03:config:adaptive", "adaptive features change the replies of a plain session", json!({"replies": r}));
+            }
+            // a rebalance: the load balancer is shown one overloaded shard until it RECOMMENDS
+            // scaling; nothing applies the recommendation (source-derived: no consumer), so the shard
+            // count and the home of every key must be what they were
+            let before: Vec<String> = {
+                let mut v = Vec::new();
+                for i in 12..24 {
+                    v.push(format!("{:?}", st.execute(&Command::Get(format!("cfg{}", i))).await));
+                }
+                v
+            };
+            let mut decisions: std::collections::BTreeSet<String> = std::collections::BTreeSet::new();
+            for round in 0..40u64 {
+                st.update_shard_metrics(0, 5_000_000, 1.0e9);
+                for sh in 1..4 {
+                    st.update_shard_metrics(sh, 0, 0.0);
+                }
+                set_now_local(&ctx_adaptive, 10_000 * (round + 1));
+                decisions.insert(format!("{:?}", st.check_scaling().await));
+            }
+            let after: Vec<String> = {
+                let mut v = Vec::new();
+                for i in 12..24 {
+                    v.push(format!("{:?}", st.execute(&Command::Get(format!("cfg{}", i))).await));
+                }
+                v
+            };
+            let pooled = format!("{:?}", st.pooled_fast_get(bytes::Bytes::from_static(b"cfg20")).await);
+            let stable = st.num_shards() == 4 && before == after && pooled.contains("118") && format!("{:?}", st.execute(&Command::DbSize).await).contains("12");
+            cfgs.insert(
+                "rebalance: one overloaded shard for 40 load-check intervals".into(),
+                format!("decisions seen {:?}; num_shards = {}; every key still answers from its home: {}", decisions, st.num_shards(), stable),
+            );
+            if !stable {
+                out.violation(
+                    "C03:rebalance-changes-routing",
+                    "after the load balancer was driven to a scaling decision the shard count or the home of a key changed: keys written before are not found where the route now points",
+                    json!({"decisions": decisions, "num_shards": st.num_shards(), "before": before, "after": after, "pooled_get_cfg20": pooled}),
+                );
             }
         }
         for (cap, pre) in [(1usize, 0usize), (1, 1), (2, 1), (256, 64), (0, 0), (4, 5)] {
